@@ -331,27 +331,8 @@ pub mod harness {
         assert!(same(&e, &val(&f)));                  // false whenever the branches differ: compile time takes the TRUE branch here
     }
 
-    // ---- condition wider than 64 bits (Value::BigUint, real num-bigint compare / and): concrete 65-bit shape, contents symbolic ----------
-    fn big65(lo: u64, hi: bool) -> Box<crate::BigUint> { Box::new(crate::BigUint::from(lo as u128 | ((hi as u128) << 64))) }
-    #[vp_proof_big]
-    pub fn ct_rt_ternary_agree_cond65() {
-        let (p_lo, p_hi, m_lo, m_hi): (u64, bool, u64, bool) = (kani::any(), kani::any(), kani::any(), kani::any());
-        let t = any_v64_sized();
-        let f = any_v64_sized();
-        let cw = t.width as usize;
-        kani::assume(f.width == t.width);                                  // branches already context-wide: no extension involved
-        let c = Value::BigUint(crate::value::ValueBigUint { payload: big65(p_lo, p_hi), mask_xz: big65(m_lo, m_hi), width: 65, signed: false });
-        let node = Expression::Ternary { cond: Box::new(Expression::Value { value: c.clone() }), true_expr: leaf(&t), false_expr: leaf(&f), width: cw, signed: t.signed && f.signed };
-        let r = run(&node);
-        let mut cx = ct::Context;
-        let (x, y, z) = (Box::new(ct::Expression { v: Some(c) }), Box::new(ct::Expression { v: Some(val(&t)) }), Box::new(ct::Expression { v: Some(val(&f)) }));
-        let e = ct::ct_ternary(&x, &y, &z, cw, &mut cx).expect("constant children give a constant");
-        let known1 = (p_lo & !m_lo) != 0 || (p_hi && !m_hi);
-        let expect = if known1 { &t } else { &f };
-        assert!(same(&r, &val(expect)), "Ternary with a 65-bit condition (payload hi/lo = {}/{:#x}, mask_xz hi/lo = {}/{:#x}): run time {:?}, expected {:?}", p_hi, p_lo, m_hi, m_lo, r, expect);
-        assert!(same(&e, &val(expect)), "Ternary with a 65-bit condition (payload hi/lo = {}/{:#x}, mask_xz hi/lo = {}/{:#x}): compile time {:?}, expected {:?}", p_hi, p_lo, m_hi, m_lo, e, expect);
-        std::mem::forget((node, x, y, z));
-    }
+    // A condition wider than 64 bits (Value::BigUint; real num-bigint `!=` and `&` on both sides) is NOT under contract here: a harness with a
+    // concrete 65-bit shape (two-digit payload and mask, low words symbolic) did not finish in CBMC within 10 minutes (Vec-backed digits).
 
     // ---- vacuity canaries (must FAIL) ----------------------------------------------------------------------------------------
     #[vp_proof_uf]
